@@ -2,7 +2,6 @@ package props
 
 import (
 	"fmt"
-	"go/constant"
 	"go/token"
 	"go/types"
 	"sort"
@@ -920,25 +919,7 @@ func copyOnlyDst(x *ssa.Slice) *ssa.Call {
 
 // pumpBlock: the largest constant count a method of the ring itself asks the space reservation for (ReadFrom's read
 // block); 0 when there is none.
-func (sp *spaceRules) pumpBlock() int64 {
-	var best int64
-	for _, fn := range sp.c.P.Funcs {
-		if recvNamed(fn) != "buffer" || fn.Pkg == nil || fn.Pkg.Pkg.Path() != pkgService {
-			continue
-		}
-		for _, call := range ir.Calls(fn) {
-			if call.Common().StaticCallee() != sp.reserve || len(call.Common().Args) < 2 {
-				continue
-			}
-			if k, ok := call.Common().Args[1].(*ssa.Const); ok && k.Value != nil {
-				if v, exact := constant.Int64Val(constant.ToInt(k.Value)); exact && v > best {
-					best = v
-				}
-			}
-		}
-	}
-	return best
-}
+func (sp *spaceRules) pumpBlock() int64 { return sp.c.ringPumpBlock() }
 
 // sizeInFrames: the ring's size as the nearest frame of the probe has loaded it from the receiver.
 func sizeInFrames(p *bounds.Probe) *bounds.Lin {
